@@ -52,7 +52,19 @@ fn build(c: &Case, keep: &[bool]) -> Vec<String> {
         }
         let mut new_toks: Vec<String> = toks.iter().map(|t| t.to_string()).collect();
         let mut ok = true;
-        if toks[0] == "expr" || toks[0] == "exprc" {
+        if toks[0] == "exprtree" {
+            let mut k = 1;
+            while k < toks.len() {
+                if toks[k] == "T" && k + 1 < toks.len() {
+                    match toks[k + 1].parse::<usize>().ok().and_then(|n| map.get(n).copied().flatten()) {
+                        Some(m) => new_toks[k + 1] = m.to_string(),
+                        None => ok = false,
+                    }
+                    k += 1;
+                }
+                k += 1;
+            }
+        } else if toks[0] == "expr" || toks[0] == "exprc" {
             let from = if toks[0] == "exprc" { 2 } else { 1 };
             for k in from..toks.len() {
                 if let Some(n) = toks[k].strip_prefix('h').and_then(|x| x.parse::<usize>().ok()) {
